@@ -30,6 +30,7 @@ type Config struct {
 	Trace            bool
 	Verbose          bool
 	MapOrderReversed bool
+	UnwindViolation  bool // an exceeded unwinding bound is reported as a violation (non-termination), not as an inconclusive path
 	NoPortfolio      bool // do not retry unknown answers with fresh solvers in other configurations
 	MapRotate        bool // fork over the rotation of every map iteration (first key is arbitrary)
 	NoMerge          bool
@@ -704,6 +705,11 @@ func (eng *Engine) runPath(harness *ssa.Function, prefix []int64, solver *Solver
 				res.Msg = r.msg
 				if r.kind == "stackoverflow" && !eng.conf.StackOK {
 					e.recordPanicViolation("stackoverflow", r.msg, "")
+				}
+				if r.kind == "unwind" && eng.conf.UnwindViolation && strings.HasPrefix(r.msg, "loop at") {
+					// a loop that is still running after the unwinding bound: for the no-hang properties
+					// this is the violation itself (replayed natively under a time limit)
+					e.recordPanicViolation("unwind", r.msg, "")
 				}
 			case goPanic:
 				res.Status = "panic"
